@@ -71,13 +71,17 @@ structure ClsPlain (c : Cls) : Prop where
 
 def ObjPlain (o : Obj) : Prop := ∀ e ∈ o.itraits, e.2.Plain
 
+/-- No delegate trait anywhere, and no `trait_added` listener that adds traits
+(`Obj.hooks`) on any object. -/
 structure NoDeleg (w : World) : Prop where
   cls : ∀ c ∈ w.classes, ClsPlain c
   obj : ∀ o ∈ w.objs, ObjPlain o
+  hooks : ∀ o ∈ w.objs, o.hooks = []
 
 def Op.Plain : Op → Prop
   | .mkClass _ decls => ∀ d ∈ decls, d.2.Plain
   | .addTrait _ _ t => t.Plain
+  | .hook _ _ _ => False
   | _ => True
 
 instance (op : Op) : Decidable op.Plain := by
@@ -105,6 +109,44 @@ theorem prefixTrait_plain {c : Cls} {o : Obj} (hc : ClsPlain c) (ho : ObjPlain o
 
 /-! ### the world after a resolution -/
 
+theorem fireTraitAdded_nil {o : Obj} (h : o.hooks = []) (name : Name) : fireTraitAdded o name = o := by
+  unfold fireTraitAdded; rw [h]; rfl
+
+theorem set_getElem?_self {α : Type} {l : List α} {i : Nat} {a : α} (h : l[i]? = some a) : l.set i a = l := by
+  apply List.ext_getElem?
+  intro j
+  rw [List.getElem?_set]
+  by_cases hij : i = j
+  · subst hij
+    have : i < l.length := by
+      rcases Nat.lt_or_ge i l.length with h' | h'
+      · exact h'
+      · rw [List.getElem?_eq_none h'] at h; cases h
+    have hv : l[i] = a := by
+      rw [List.getElem?_eq_getElem this] at h; exact Option.some.inj h
+    simp [this, hv]
+  · simp [hij]
+
+theorem modify_eq_set {α : Type} {l : List α} {i : Nat} {a : α} (f : α → α) (h : l[i]? = some a) :
+    l.modify i f = l.set i (f a) := by
+  apply List.ext_getElem?
+  intro j
+  rw [List.getElem?_modify, List.getElem?_set]
+  by_cases hij : i = j
+  · subst hij
+    have : i < l.length := by
+      rcases Nat.lt_or_ge i l.length with h' | h'
+      · exact h'
+      · rw [List.getElem?_eq_none h'] at h; cases h
+    have hv : l[i] = a := by
+      rw [List.getElem?_eq_getElem this] at h; exact Option.some.inj h
+    simp [this, hv]
+  · simp [hij]
+
+theorem setDict_eq {w : World} {oi : Nat} {o : Obj} (d : Map Val) (h : w.objs[oi]? = some o) :
+    setDict w oi d = { w with objs := w.objs.set oi { o with dict := d } } := by
+  unfold setDict; rw [modify_eq_set _ h]
+
 /-- The only thing a resolution can do to the world: store the prefix trait it
 found in the class dictionary of the object's class — and it does so only when
 neither an instance trait nor a class trait of that name exists. -/
@@ -118,30 +160,34 @@ theorem Resolved.objs {w w' : World} {o : Obj} {c : Cls} {name : Name} (h : Reso
     w'.objs = w.objs := by
   cases h <;> rfl
 
-theorem getPrefixTrait_error {w : World} {o : Obj} {c : Cls} {name : Name} {b : Bool} {e : Exc}
-    (h : prefixTrait c o name b = .error e) : getPrefixTrait w o c name b = (w, .error e) := by
+theorem getPrefixTrait_error {w : World} {oi : Nat} {o : Obj} {c : Cls} {name : Name} {b : Bool} {e : Exc}
+    (h : prefixTrait c o name b = .error e) : getPrefixTrait w oi o c name b = (w, .error e) := by
   simp [getPrefixTrait, h]
 
-theorem getPrefixTrait_ok {w : World} {o : Obj} {c : Cls} {name : Name} {b : Bool} {t : Trait}
-    (h : prefixTrait c o name b = .ok t) (hi : o.itraits.get name = none) :
-    getPrefixTrait w o c name b =
+/-- Without `trait_added` listeners on the object. -/
+theorem getPrefixTrait_ok {w : World} {oi : Nat} {o : Obj} {c : Cls} {name : Name} {b : Bool} {t : Trait}
+    (h : prefixTrait c o name b = .ok t) (hi : o.itraits.get name = none)
+    (hh : o.hooks = []) (ho : w.objs[oi]? = some o) :
+    getPrefixTrait w oi o c name b =
       ({ w with classes := w.classes.set o.cls { c with ctraits := c.ctraits.set name t } }, .ok t) := by
-  simp [getPrefixTrait, h, hi]
+  simp [getPrefixTrait, h, hi, fireTraitAdded_nil hh, set_getElem?_self ho]
 
-theorem getPrefixTrait_resolved (w : World) {o : Obj} {c : Cls} {name : Name} (b : Bool)
-    (hi : o.itraits.get name = none) (hct : c.ctraits.get name = none) :
-    Resolved w o c name (getPrefixTrait w o c name b).1 := by
+theorem getPrefixTrait_resolved (w : World) {oi : Nat} {o : Obj} {c : Cls} {name : Name} (b : Bool)
+    (hi : o.itraits.get name = none) (hct : c.ctraits.get name = none)
+    (hh : o.hooks = []) (ho : w.objs[oi]? = some o) :
+    Resolved w o c name (getPrefixTrait w oi o c name b).1 := by
   cases h : prefixTrait c o name b with
   | error e => rw [getPrefixTrait_error h]; exact .same
-  | ok t => rw [getPrefixTrait_ok h hi]; exact .cached b t hi hct h
+  | ok t => rw [getPrefixTrait_ok h hi hh ho]; exact .cached b t hi hct h
 
 /-- What `getPrefixTrait` returns when it succeeds. -/
-theorem getPrefixTrait_result {w : World} {o : Obj} {c : Cls} {name : Name} {b : Bool} {w' : World} {t : Trait}
-    (hi : o.itraits.get name = none) (h : getPrefixTrait w o c name b = (w', .ok t)) :
+theorem getPrefixTrait_result {w : World} {oi : Nat} {o : Obj} {c : Cls} {name : Name} {b : Bool} {w' : World}
+    {t : Trait} (hi : o.itraits.get name = none) (hh : o.hooks = []) (ho : w.objs[oi]? = some o)
+    (h : getPrefixTrait w oi o c name b = (w', .ok t)) :
     prefixTrait c o name b = .ok t := by
   cases hp : prefixTrait c o name b with
   | error e => rw [getPrefixTrait_error hp] at h; cases h
-  | ok t' => rw [getPrefixTrait_ok hp hi] at h; cases h; rfl
+  | ok t' => rw [getPrefixTrait_ok hp hi hh ho] at h; cases h; rfl
 
 /-- The trait `has_traits_setattro` dispatches to (as a relation): instance
 trait, else class-dictionary entry, else a fresh prefix resolution. -/
@@ -151,8 +197,9 @@ inductive Dispatch (c : Cls) (o : Obj) (name : Name) (b : Bool) : Except Exc Tra
   | pref {r : Except Exc Trait} (hi : o.itraits.get name = none) (hct : c.ctraits.get name = none)
       (h : prefixTrait c o name b = r) : Dispatch c o name b r
 
-theorem resolveSet_spec (w : World) (o : Obj) (c : Cls) (name : Name) :
-    Resolved w o c name (resolveSet w o c name).1 ∧ Dispatch c o name true (resolveSet w o c name).2 := by
+theorem resolveSet_spec (w : World) {oi : Nat} {o : Obj} (c : Cls) (name : Name)
+    (hh : o.hooks = []) (ho : w.objs[oi]? = some o) :
+    Resolved w o c name (resolveSet w oi o c name).1 ∧ Dispatch c o name true (resolveSet w oi o c name).2 := by
   unfold resolveSet
   cases hi : o.itraits.get name with
   | some t => exact ⟨.same, .inst hi⟩
@@ -160,10 +207,10 @@ theorem resolveSet_spec (w : World) (o : Obj) (c : Cls) (name : Name) :
     cases hct : c.ctraits.get name with
     | some t => exact ⟨.same, .cls hi hct⟩
     | none =>
-      refine ⟨getPrefixTrait_resolved w true hi hct, ?_⟩
+      refine ⟨getPrefixTrait_resolved w true hi hct hh ho, ?_⟩
       cases hp : prefixTrait c o name true with
       | error e => simp only [getPrefixTrait_error hp]; exact .pref hi hct hp
-      | ok t => simp only [getPrefixTrait_ok hp hi]; exact .pref hi hct hp
+      | ok t => simp only [getPrefixTrait_ok hp hi hh ho]; exact .pref hi hct hp
 
 /-! ### what the per-kind functions do to `__dict__` -/
 
@@ -263,6 +310,7 @@ def Op.target : Op → Option (Nat × Name)
   | .addTrait o n _ => some (o, n)
   | .removeTrait o n => some (o, n)
   | .getTrait o n _ => some (o, n)
+  | .hook o p _ => some (o, p)
 
 /-- How the addressed object can change.  Other names are untouched.  For the
 addressed name: the instance-trait entry stays, is removed by `remove_trait`,
@@ -271,6 +319,7 @@ governs; the `__dict__` entry stays, is removed by `remove_trait`, or is what
 the setter / getter of a trait the lookup dispatches to made of it. -/
 structure ObjChange (E : Env) (op : Op) (oi : Nat) (name : Name) (c : Cls) (o o' : Obj) : Prop where
   cls : o'.cls = o.cls
+  hooksEq : (∃ p t, op = .hook oi p t) ∨ o'.hooks = o.hooks
   dict : ∀ k, k ≠ name → o'.dict.get k = o.dict.get k
   itr : ∀ k, k ≠ name → o'.itraits.get k = o.itraits.get k
   itrMem : ∀ e ∈ o'.itraits, e ∈ o.itraits ∨ (op = .addTrait oi name e.2) ∨
@@ -304,10 +353,11 @@ inductive Effect (E : Env) (w : World) : Op → World → Prop
 
 theorem setattro_effect (E : Env) {w : World} {op : Op} {oi : Nat} {name : Name} {o : Obj} {c : Cls}
     (value : Option Val) (ht : op.target = some (oi, name)) (ho : w.objs[oi]? = some o)
-    (hc : w.classes[o.cls]? = some c) : Effect E w op (setattro E w oi o c name value).1 := by
+    (hc : w.classes[o.cls]? = some c) (hh : o.hooks = []) :
+    Effect E w op (setattro E w oi o c name value).1 := by
   unfold setattro
-  obtain ⟨hr, hd⟩ := resolveSet_spec w o c name
-  generalize resolveSet w o c name = r at hr hd
+  obtain ⟨hr, hd⟩ := resolveSet_spec w c name hh ho
+  generalize resolveSet w oi o c name = r at hr hd
   obtain ⟨w', res⟩ := r
   cases res with
   | error e => exact .res op oi name o c w' ht ho hc hr
@@ -316,8 +366,10 @@ theorem setattro_effect (E : Env) {w : World} {op : Op} {oi : Nat} {name : Name}
     cases hk : setattrKind E t o.dict name value with
     | error e => exact .res op oi name o c w' ht ho hc hr
     | ok d =>
+      simp only
+      rw [setDict_eq d (by rw [hr.objs]; exact ho)]
       exact .obj op oi name o c w' { o with dict := d } ht ho hc hr
-        ⟨rfl, setattrKind_frame hk, fun _ _ => rfl, fun _ he => Or.inl he, Or.inl rfl,
+        ⟨rfl, Or.inr rfl, setattrKind_frame hk, fun _ _ => rfl, fun _ he => Or.inl he, Or.inl rfl,
          Or.inr (Or.inr (Or.inl ⟨t, value, hd, hk⟩))⟩
 
 theorem trait0_dispatch {c : Cls} {o : Obj} {name : Name} {t : Trait} (b : Bool)
@@ -336,7 +388,8 @@ theorem trait0_none {c : Cls} {o : Obj} {name : Name} (h : trait0 c o name = non
 
 theorem getattro_effect (E : Env) {w : World} {op : Op} {oi : Nat} {name : Name} {o : Obj} {c : Cls}
     (ht : op.target = some (oi, name)) (ho : w.objs[oi]? = some o)
-    (hc : w.classes[o.cls]? = some c) : Effect E w op (getattro E w oi o c name).1 := by
+    (hc : w.classes[o.cls]? = some c) (hh : o.hooks = []) :
+    Effect E w op (getattro E w oi o c name).1 := by
   unfold getattro
   cases hdict : o.dict.get name with
   | some v => exact .noop op
@@ -344,10 +397,11 @@ theorem getattro_effect (E : Env) {w : World} {op : Op} {oi : Nat} {name : Name}
     simp only
     have fin : ∀ (w' : World) (t : Trait) (v : Val) (d : Map Val), Resolved w o c name w' →
         Dispatch c o name false (.ok t) → getattrKind E t o.dict name = .ok (v, d) →
-        Effect E w op (setDict w' oi o d) := by
+        Effect E w op (setDict w' oi d) := by
       intro w' t v d hres hd hk
+      rw [setDict_eq d (by rw [hres.objs]; exact ho)]
       exact .obj op oi name o c w' { o with dict := d } ht ho hc hres
-        ⟨rfl, getattrKind_frame hk, fun _ _ => rfl, fun _ he => Or.inl he, Or.inl rfl,
+        ⟨rfl, Or.inr rfl, getattrKind_frame hk, fun _ _ => rfl, fun _ he => Or.inl he, Or.inl rfl,
          Or.inr (Or.inr (Or.inr ⟨t, v, hdict, hd, hk⟩))⟩
     cases h0 : trait0 c o name with
     | some t =>
@@ -364,8 +418,8 @@ theorem getattro_effect (E : Env) {w : World} {op : Op} {oi : Nat} {name : Name}
       | none =>
         simp only
         obtain ⟨hi, hct⟩ := trait0_none h0
-        have hr := getPrefixTrait_resolved w false hi hct
-        cases hg : getPrefixTrait w o c name false with
+        have hr := getPrefixTrait_resolved w false hi hct hh ho
+        cases hg : getPrefixTrait w oi o c name false with
         | mk w' res =>
           rw [hg] at hr
           cases res with
@@ -376,20 +430,22 @@ theorem getattro_effect (E : Env) {w : World} {op : Op} {oi : Nat} {name : Name}
             | error e => exact .res op oi name o c w' ht ho hc hr
             | ok r =>
               obtain ⟨v, d⟩ := r
-              exact fin w' t v d hr (.pref hi hct (getPrefixTrait_result hi hg)) hk
+              exact fin w' t v d hr (.pref hi hct (getPrefixTrait_result hi hh ho hg)) hk
 
 theorem getTrait_effect (E : Env) {w : World} {op : Op} {oi : Nat} {name : Name} {o : Obj} {c : Cls} (inst : Int)
     (ht : op.target = some (oi, name)) (ho : w.objs[oi]? = some o)
-    (hc : w.classes[o.cls]? = some c) : Effect E w op (getTrait w oi o c name inst).1 := by
+    (hc : w.classes[o.cls]? = some c) (hh : o.hooks = []) :
+    Effect E w op (getTrait w oi o c name inst).1 := by
   unfold getTrait
   cases hi : o.itraits.get name with
   | some t => exact .noop op
   | none =>
     have clone : ∀ (w' : World) (t : Trait), Resolved w o c name w' →
         (c.ctraits.get name = some t ∨ (c.ctraits.get name = none ∧ ∃ b, prefixTrait c o name b = .ok t)) →
-        Effect E w op { w' with objs := w'.objs.set oi { o with itraits := o.itraits.set name t } } := by
+        Effect E w op { w' with objs := w'.objs.modify oi (fun o => { o with itraits := o.itraits.set name t }) } := by
       intro w' t hres hsrc
-      refine .obj op oi name o c w' _ ht ho hc hres ⟨rfl, fun _ _ => rfl, ?_, ?_, ?_, Or.inl rfl⟩
+      rw [modify_eq_set _ (by rw [hres.objs]; exact ho)]
+      refine .obj op oi name o c w' _ ht ho hc hres ⟨rfl, Or.inr rfl, fun _ _ => rfl, ?_, ?_, ?_, Or.inl rfl⟩
       · intro k hk; exact Map.get_set_ne _ _ (Ne.symm hk)
       · intro e he
         rcases List.mem_cons.mp he with he | he
@@ -411,8 +467,8 @@ theorem getTrait_effect (E : Env) {w : World} {op : Op} {oi : Nat} {name : Name}
       | none =>
         by_cases h0 : inst = 0
         · simp only [h0, ↓reduceIte]; exact .noop op
-        · have hr := getPrefixTrait_resolved w false hi hct
-          cases hg : getPrefixTrait w o c name false with
+        · have hr := getPrefixTrait_resolved w false hi hct hh ho
+          cases hg : getPrefixTrait w oi o c name false with
           | mk w' res =>
             rw [hg] at hr
             cases res with
@@ -422,7 +478,7 @@ theorem getTrait_effect (E : Env) {w : World} {op : Op} {oi : Nat} {name : Name}
               by_cases hle : inst ≤ 0
               · simp only [hle, ↓reduceIte]; exact .res op oi name o c w' ht ho hc hr
               · simp only [hle, ↓reduceIte]
-                exact clone w' t hr (Or.inr ⟨hct, false, getPrefixTrait_result hi hg⟩)
+                exact clone w' t hr (Or.inr ⟨hct, false, getPrefixTrait_result hi hh ho hg⟩)
 
 theorem removeTrait_effect (E : Env) {w : World} {oi : Nat} {name : Name} {o : Obj} {c : Cls}
     (ho : w.objs[oi]? = some o) (hc : w.classes[o.cls]? = some c) :
@@ -431,18 +487,30 @@ theorem removeTrait_effect (E : Env) {w : World} {oi : Nat} {name : Name} {o : O
   split
   · exact .noop _
   · split
-    · refine .obj _ oi name o c w _ rfl ho hc .same ⟨rfl, ?_, ?_, ?_, ?_, ?_⟩
+    · refine .obj _ oi name o c w _ rfl ho hc .same ⟨rfl, Or.inr rfl, ?_, ?_, ?_, ?_, ?_⟩
       · intro k hk; exact Map.get_erase_ne _ (Ne.symm hk)
       · intro k hk; exact Map.get_erase_ne _ (Ne.symm hk)
       · intro e he; exact Or.inl (Map.mem_erase he)
       · exact Or.inr (Or.inl ⟨rfl, Map.get_erase_same _ _⟩)
       · exact Or.inr (Or.inl ⟨rfl, Map.get_erase_same _ _⟩)
     · refine .obj _ oi name o c w _ rfl ho hc .same
-        ⟨rfl, ?_, fun _ _ => rfl, fun _ he => Or.inl he, Or.inl rfl, ?_⟩
+        ⟨rfl, Or.inr rfl, ?_, fun _ _ => rfl, fun _ he => Or.inl he, Or.inl rfl, ?_⟩
       · intro k hk; exact Map.get_erase_ne _ (Ne.symm hk)
       · exact Or.inr (Or.inl ⟨rfl, Map.get_erase_same _ _⟩)
 
-theorem step_effect (E : Env) (w : World) (op : Op) : Effect E w op (step E w op).1 := by
+theorem addTrait_eq {w : World} {oi : Nat} {o : Obj} {c : Cls} (n : Name) (t : Trait) (hh : o.hooks = []) :
+    addTrait w oi o c n t =
+      ({ w with objs := w.objs.set oi { o with itraits := o.itraits.set n t } }, .ok .done) := by
+  unfold addTrait
+  cases trait0 c o n with
+  | some _ => rfl
+  | none =>
+    simp only
+    rw [fireTraitAdded_nil (o := { o with itraits := o.itraits.set n t }) hh n]
+
+/-- Everything a step can do in a world without `trait_added` listeners. -/
+theorem step_effect (E : Env) (w : World) (hw : ∀ o ∈ w.objs, o.hooks = []) (op : Op) :
+    Effect E w op (step E w op).1 := by
   cases op with
   | mkClass bases decls =>
     simp only [step]
@@ -461,7 +529,7 @@ theorem step_effect (E : Env) (w : World) (op : Op) : Effect E w op (step E w op
     | some o =>
       cases hc : w.classes[o.cls]? with
       | none => rw [withObj_bad _ (Or.inr ⟨o, ho, hc⟩)]; exact .noop _
-      | some c => rw [withObj_eq ho hc]; exact getattro_effect E rfl ho hc
+      | some c => rw [withObj_eq ho hc]; exact getattro_effect E rfl ho hc (hw o (List.mem_of_getElem? ho))
   | set oi n v =>
     simp only [step]
     cases ho : w.objs[oi]? with
@@ -469,7 +537,7 @@ theorem step_effect (E : Env) (w : World) (op : Op) : Effect E w op (step E w op
     | some o =>
       cases hc : w.classes[o.cls]? with
       | none => rw [withObj_bad _ (Or.inr ⟨o, ho, hc⟩)]; exact .noop _
-      | some c => rw [withObj_eq ho hc]; exact setattro_effect E _ rfl ho hc
+      | some c => rw [withObj_eq ho hc]; exact setattro_effect E _ rfl ho hc (hw o (List.mem_of_getElem? ho))
   | del oi n =>
     simp only [step]
     cases ho : w.objs[oi]? with
@@ -477,7 +545,7 @@ theorem step_effect (E : Env) (w : World) (op : Op) : Effect E w op (step E w op
     | some o =>
       cases hc : w.classes[o.cls]? with
       | none => rw [withObj_bad _ (Or.inr ⟨o, ho, hc⟩)]; exact .noop _
-      | some c => rw [withObj_eq ho hc]; exact setattro_effect E _ rfl ho hc
+      | some c => rw [withObj_eq ho hc]; exact setattro_effect E _ rfl ho hc (hw o (List.mem_of_getElem? ho))
   | addTrait oi n t =>
     simp only [step]
     cases ho : w.objs[oi]? with
@@ -487,8 +555,8 @@ theorem step_effect (E : Env) (w : World) (op : Op) : Effect E w op (step E w op
       | none => rw [withObj_bad _ (Or.inr ⟨o, ho, hc⟩)]; exact .noop _
       | some c =>
         rw [withObj_eq ho hc]
-        unfold addTrait
-        refine .obj _ oi n o c w _ rfl ho hc .same ⟨rfl, fun _ _ => rfl, ?_, ?_, ?_, Or.inl rfl⟩
+        rw [addTrait_eq n t (hw o (List.mem_of_getElem? ho))]
+        refine .obj _ oi n o c w _ rfl ho hc .same ⟨rfl, Or.inr rfl, fun _ _ => rfl, ?_, ?_, ?_, Or.inl rfl⟩
         · intro k hk; exact Map.get_set_ne _ _ (Ne.symm hk)
         · intro e he
           rcases List.mem_cons.mp he with he | he
@@ -510,6 +578,17 @@ theorem step_effect (E : Env) (w : World) (op : Op) : Effect E w op (step E w op
     | some o =>
       cases hc : w.classes[o.cls]? with
       | none => rw [withObj_bad _ (Or.inr ⟨o, ho, hc⟩)]; exact .noop _
-      | some c => rw [withObj_eq ho hc]; exact getTrait_effect E inst rfl ho hc
+      | some c => rw [withObj_eq ho hc]; exact getTrait_effect E inst rfl ho hc (hw o (List.mem_of_getElem? ho))
+  | hook oi p t =>
+    simp only [step]
+    cases ho : w.objs[oi]? with
+    | none => rw [withObj_bad _ (Or.inl ho)]; exact .noop _
+    | some o =>
+      cases hc : w.classes[o.cls]? with
+      | none => rw [withObj_bad _ (Or.inr ⟨o, ho, hc⟩)]; exact .noop _
+      | some c =>
+        rw [withObj_eq ho hc]
+        exact .obj _ oi p o c w _ rfl ho hc .same
+          ⟨rfl, Or.inl ⟨p, t, rfl⟩, fun _ _ => rfl, fun _ _ => rfl, fun _ he => Or.inl he, Or.inl rfl, Or.inl rfl⟩
 
 end TraitsVerif.Model.Resolve
